@@ -41,6 +41,11 @@ def run(res, tier, replay):
                 used = set(); f0 = [(chmlib.rand_name(rng, used, maxlen=9), b"") for _ in range(rng.choice([30, 60]))]
                 p = dict(chunk_size=rng.choice([96, 128]), density=rng.choice([1, 2]), with_index=(i % 2 == 0), version=3)
                 chm, exp = chmfmt.build(f0, (), rng, chain_rng=random.Random(i), **p)
+            elif i in (15, 16) or (i % 50 in (35, 36)):
+                # the index chunk lies physically between the listing chunks (first_pmgl..last_pmgl spans it; open() skips it while listing)
+                used = set(); f0 = [(chmlib.rand_name(rng, used, maxlen=9), b"") for _ in range(rng.choice([12, 20]))]
+                p = dict(chunk_size=rng.choice([128, 160]), density=rng.choice([1, 2]), with_index=True, version=3)
+                chm, exp = chmfmt.build(f0, (), rng, index_slot=(1 if i % 2 else 2), **p)
             elif i == 7 or (i % 100 == 57):
                 # more than 1024 chunks (chunk numbers above any small table size): tiny chunks, thousands of short names
                 f0 = [(b"/n%04d" % j, b"") for j in range(4200)]
